@@ -653,8 +653,8 @@ func acceptedRace(fns []string) bool {
 		return true // both accesses are the harness's own: nothing about the repository
 	}
 	slots := map[string]bool{"proc/redis.(*upstream).chooseHost": true, "proc/redis.(*upstream).doSlotsRefresh": true, "proc/redis.parseClusterNodes": true, "proc/redis.parseClusterNodesLine": true}
-	if slots[fns[0]] && slots[fns[1]] {
-		return true
+	if slots[fns[0]] && slots[fns[1]] && !(fns[0] == fns[1] && fns[0] == "proc/redis.(*upstream).chooseHost") {
+		return true // (the table's readers do not write anything: two routing calls racing with each other are not this family)
 	}
 	cfgReaders := map[string]bool{"proc/redis.(*compressFilter).Do": true, "proc/redis.(*compressFilter).Compress": true, "proc/redis.(*upstream).chooseHost": true, "proc/redis.(*upstream).createClient": true, "proc/redis.(*config).Raw": true, "proc/redis.(*config).Update": true}
 	for i := 0; i < 2; i++ {
